@@ -2,5 +2,6 @@
 package all
 
 import (
+	_ "github.com/ozontech/file.d/zz_verifharness/h1pipe"
 	_ "github.com/ozontech/file.d/zz_verifharness/h2batcher"
 )
